@@ -37,6 +37,11 @@ Judge(e) ==
          /\ m.ok
          /\ PalOK(e.pal, m.m.pal)
          /\ e.ok = 1 /\ e.got = m.m.pal
+    [] e.ev = "paldec" ->
+         \* a hand-built stream (suggested palettes no encoder writes: 1-byte entries that are palette or
+         \* register references, non-premultiplied entries): the real decoder delivers the specification's palette
+         LET m == ParseMeta(e.b) IN
+         IF m.ok THEN e.ok = 1 /\ e.got = m.m.pal ELSE e.ok = 0
     [] OTHER -> FALSE
 
 Init == l \in 1..Len(Trace)
